@@ -26,6 +26,8 @@ fams = [dict(name='measure-order-window', series=S, times=T, versions=[1, 2], ve
 def nontrivial(st):
     ops = [x['last'].get('op') for x in st[1:]]
     return 'queryall' in ops and sum(1 for o in ops if o == 'write') >= 2
+import stream_fams
+fams += stream_fams.c09(c)
 tot, stats, samples, nontriv, cover = ec.run_families(c, fams, binp, nontrivial)
 extra = {}
 try:
